@@ -20,7 +20,13 @@ and by the theorem predicates evaluated (extracted) on the model states the real
       (harness.chanpipe.BufScenario: STRBUF_LIMIT / outbuf_overflow / outbuf_high_watermark shrunk so that
       bytes -> BytesIO -> temporary-file migrations and buffer rotation happen while the read position of the
       buffer is non-zero).  The model abstracts a buffer as a length and has no high-watermark wait, so (d)
-      is judged by the monitor only (exact bytes against the lone-run oracle, no empty send, no stall).
+      is judged by the monitor only (exact bytes against the lone-run oracle, no empty send, no stall);
+  (e) the same monitor, plus the record of what the application was called with (method, path, body), on
+      pipelines that MIX body-less, Content-Length and chunked requests (chunk extensions, trailers) delivered
+      under generated SEGMENTATIONS (whole, byte-wise, every single cut, cuts inside every CRLF, random cut
+      sets; harness.chanpipe.SegScenario) across lookahead 0/1/5: a request whose parsing depends on how the
+      bytes arrive reaches the application differently from how the client sent it.  The model abstracts
+      parsing (a request is an id), so (e) is monitor-only as well.
 
 Finding F18 (found here, reproduced on the then real tree, replayed by the model; repaired in /repo
 by 8bcf05e): after popping the last request the finishing WORKER may call send_continue() -- a locked
@@ -357,6 +363,120 @@ def run(ctx):
                         "the model abstracts a buffer as a length and has no high-watermark wait")
     bst["samples"] = buf_samples
 
+    # 6. mixed-framing pipelines under generated segmentations: MONITOR ONLY (the model abstracts parsing)
+    from harness import gen_http, split_search
+    ts = time.time()
+    seg_budget = 80.0 if thorough else 9.0
+    sst = {"runs": 0, "overrun": 0, "violating_runs": 0, "pipelines": 0, "framing": {"none": 0, "cl": 0, "chunked": 0,
+           "chunked_with_extension": 0, "chunked_with_trailer": 0}, "segmentation_kinds": {}, "pieces_delivered": 0,
+           "runs_with_a_cut_inside_a_CRLF": 0, "runs_with_a_cut_inside_the_final_CRLF_of_a_chunked_body_followed_by_a_request": 0,
+           "lookahead": {}, "policies": {}, "complete_pipelines": 0, "application_calls": 0, "stream_bytes": 0}
+    seg_traces = set()
+    seg_best = {}
+    seg_counts = {}
+    seg_samples = []
+
+    def seg_one(name, reqs, cuts, la, kind, policy=None, pk="default", nw=1):
+        scn = H.SegScenario(reqs, cuts, lookahead=la, n_workers=nw, seg_kind=kind)
+        w = H.SegWorld(scn, policy=policy)
+        w.run()
+        sst["runs"] += 1
+        sst["overrun"] += w.verdict == "overrun"
+        sst["segmentation_kinds"][kind] = sst["segmentation_kinds"].get(kind, 0) + 1
+        sst["lookahead"][la] = sst["lookahead"].get(la, 0) + 1
+        sst["policies"][pk] = sst["policies"].get(pk, 0) + 1
+        sst["pieces_delivered"] += len(scn.client_script())
+        st_ = scn.stream()
+        sst["stream_bytes"] += len(st_)
+        sst["runs_with_a_cut_inside_a_CRLF"] += any(st_[c - 1:c + 1] == b"\r\n" for c in scn.cuts if 0 < c < len(st_))
+        sst["runs_with_a_cut_inside_the_final_CRLF_of_a_chunked_body_followed_by_a_request"] += bool(scn.final_crlf_cuts())
+        sst["application_calls"] += len(w.calls)
+        seg_traces.add(hashlib.sha1((json.dumps(scn.to_json(), sort_keys=True) + "|" + ",".join(map(str, w.sched.choices))).encode()).hexdigest())
+        bad = H.seg_monitor(w)
+        if not bad and w.calls == [r.expected_call() for r in reqs]:
+            sst["complete_pipelines"] += 1
+        if bad:
+            sst["violating_runs"] += 1
+            mon_ok[0] = False
+        for key, text in bad:
+            seg_counts[key] = seg_counts.get(key, 0) + 1
+            rep = replay_dict("monitor-seg", name, scn, w, {
+                "granularity": "locks", "policy": pk,
+                "segmentation": {"kind": kind, "cuts": list(scn.cuts), "pieces_hex": [x[1].hex() for x in scn.client_script() if x[0] == "send"][:40]},
+                "expected": "C04 monitor clean: the application is called with exactly the (method, path, body) of a prefix of the pipeline, in "
+                            "order, and the wire is the concatenation of the lone responses (each request alone, delivered whole), whatever the segmentation",
+                "observed": text, "application_calls": [[c[0], c[1], c[2]] for c in w.calls], "wire_hex": w.wire.hex()[:600]})
+            if key not in seg_best or len(json.dumps(rep)) < len(json.dumps(seg_best[key])):
+                seg_best[key] = rep
+        return w
+
+    def note_pipeline(reqs):
+        sst["pipelines"] += 1
+        for r in reqs:
+            sst["framing"][r.framing] += 1
+            if r.framing == "chunked":
+                sst["framing"]["chunked_with_extension"] += bool(r.ext)
+                sst["framing"]["chunked_with_trailer"] += bool(r.trailer)
+
+    SEG_NAMES = ["whole", "byte-wise", "random-cuts", "random-cuts", "random-cuts", "inside-every-CRLF"]
+    for pi, (name, reqs) in enumerate(H.seg_pipelines()):
+        if sst["violating_runs"] >= 12:
+            break
+        note_pipeline(reqs)
+        stream = b"".join(r.bytes() for r in reqs)
+        segs = gen_http.segmentations(rng, stream)
+        for i, pieces_ in enumerate(segs):
+            kind = SEG_NAMES[i] if len(segs) == len(SEG_NAMES) else "seg%d" % i
+            for la in (0, 1, 5):
+                w = seg_one(name, reqs, H.cuts_of(pieces_), la, kind)
+            if kind == "inside-every-CRLF":
+                if len(seg_samples) < 2:
+                    seg_samples.append({"pipeline": name, "requests": [[r.method, r.path, r.framing, len(r.body)] for r in reqs],
+                                        "segmentation": kind, "pieces": [x.decode("latin-1") for x in pieces_][:12], "lookahead": 5,
+                                        "application_calls": [c[:2] for c in w.calls], "wire_bytes": len(w.wire), "steps": len(w.sched.choices)})
+                for j in range(6 if thorough else 2):
+                    r = random.Random(rng.getrandbits(48))
+                    pol, pk = (H.PCTPolicy(r, 1 + j % 3, 300), "pct") if j % 2 else (H.RandomPolicy(r, stay=r.choice([0.0, 0.5, 0.9])), "random")
+                    seg_one(name, reqs, H.cuts_of(pieces_), (0, 1, 5)[j % 3], kind, policy=pol, pk=pk, nw=2)
+        if thorough or pi < 2:
+            # every single cut of a short pipeline
+            for c in range(1, len(stream)):
+                for la in ((0, 1, 5) if thorough else ((0, 1, 5)[c % 3],)):
+                    seg_one(name, reqs, [c], la, "every-single-cut")
+    n_seg_random = 0
+    while time.time() - ts < seg_budget and n_seg_random < (4000 if thorough else 400) and sst["violating_runs"] < 12:
+        r = random.Random(rng.getrandbits(48))
+        reqs = H.gen_seg_pipeline(r)
+        note_pipeline(reqs)
+        stream = b"".join(x.bytes() for x in reqs)
+        segs = [("split_search", pieces_) for pieces_ in split_search.segmentations_for(r, stream, ctx.tier)]
+        segs = [segs[0], segs[1]] + r.sample(segs[2:], min(len(segs) - 2, 10 if thorough else 4)) if len(segs) > 2 else segs
+        segs += [("gen_http", pieces_) for pieces_ in gen_http.segmentations(r, stream, k=2)[2:]]
+        for k, (src_, pieces_) in enumerate(segs):
+            la = r.choice([0, 1, 5])
+            if k % 4 == 3:
+                seg_one("seg-random-%d" % n_seg_random, reqs, H.cuts_of(pieces_), la, "generated:" + src_,
+                        policy=H.RandomPolicy(r, stay=r.choice([0.0, 0.5, 0.9])), pk="random", nw=r.choice([1, 2]))
+            else:
+                seg_one("seg-random-%d" % n_seg_random, reqs, H.cuts_of(pieces_), la, "generated:" + src_)
+        n_seg_random += 1
+    for key, rep in sorted(seg_best.items()):
+        rep["runs_with_this_violation"] = seg_counts[key]
+        stats["monitor_violations"] += seg_counts[key]
+        report("monitor-seg:" + key, rep["observed"], rep)
+    ctx.oblige("C04 monitor clean (wire, calls with method/path/body, never mixed, exactly once) on mixed-framing pipelines under generated "
+               "segmentations (%d runs over %d pipelines; %d runs cut the final CRLF of a chunked body that is followed by a request; monitor only)"
+               % (sst["runs"], sst["pipelines"], sst["runs_with_a_cut_inside_the_final_CRLF_of_a_chunked_body_followed_by_a_request"]),
+               not seg_best and sst["runs_with_a_cut_inside_the_final_CRLF_of_a_chunked_body_followed_by_a_request"] > 0)
+    sst["distinct_traces"] = len(seg_traces)
+    sst["random_pipelines"] = n_seg_random
+    sst["violations_by_kind"] = seg_counts
+    sst["wall_s"] = round(time.time() - ts, 1)
+    sst["judged_by"] = ("monitor only (application calls = the (method, path, body) the client sent, in order; exact wire bytes against the lone-run "
+                        "oracle: each request alone on a fresh connection delivered whole; never mixed; one queue entry; exactly once at "
+                        "quiescence); NOT replayed on Model/ChanPipe.v: the model abstracts parsing (a request is an id, `received` consumes whole items)")
+    sst["samples"] = seg_samples
+
     ctx.oblige("K-chanpipe: every operation of every real trace is a step of Model/ChanPipe.v with the same label "
                "and the same abstract state (%d traces, %d steps)" % (stats["validated_traces"], stats["validated_steps"]),
                conf_ok[0] and stats["validated_traces"] > 0)
@@ -373,8 +493,9 @@ def run(ctx):
         "rule": "real HTTPChannel/dispatcher/poll traces under the deterministic scheduler mapped step by step to the extracted "
                 "model (label + abstract state after every step); C04 monitor on every run; ast shape audit of 15 methods; "
                 "plus monitor-only runs in which output buffers change representation under partial sends (buffer_representation_search; "
-                "counted in evaluations, not in traces_validated_against_impl)",
-        "evaluations": stats["runs"] + bst["runs"],
+                "counted in evaluations, not in traces_validated_against_impl) and monitor-only runs of mixed-framing pipelines "
+                "(body-less / Content-Length / chunked) under generated segmentations (segmentation_search; likewise)",
+        "evaluations": stats["runs"] + bst["runs"] + sst["runs"],
         "traces_validated_against_impl": stats["validated_traces"],
         "steps_validated": stats["validated_steps"],
         "distinct_nontrivial": len(nontrivial),
@@ -388,6 +509,7 @@ def run(ctx):
         "samples": samples,
         "shape_audit_methods": sorted(list(H.EXPECTED_SHAPE) + list(H.EXPECTED_DISPATCHER_SHAPE)),
         "buffer_representation_search": bst,
+        "segmentation_search": sst,
         "f18_regression": {"stored_schedule_clean": f18_clean, "model_old_shape_refuted": model_old_refuted,
                            "model_current_shape_ok": model_new_ok},
     })
@@ -401,6 +523,16 @@ def replay(data):
         w.run()
         bad = H.buf_monitor(w)
         print("kind=monitor-buf scenario=%s verdict=%s wire=%d bytes migrations=%r" % (data.get("scenario_name"), w.verdict, len(w.wire), w.migrations))
+        print("monitor now: %r" % (bad,))
+        print("observed then: %s" % (data.get("observed"),))
+        return 1 if bad else 0
+    if data.get("kind") == "monitor-seg":
+        scn = H.SegScenario.from_json(data["scenario"])
+        w = H.SegWorld(scn, schedule=data["choices"])
+        w.run()
+        bad = H.seg_monitor(w)
+        print("kind=monitor-seg scenario=%s verdict=%s wire=%d bytes cuts=%r lookahead=%d" % (data.get("scenario_name"), w.verdict, len(w.wire), scn.cuts[:30], scn.lookahead))
+        print("application calls now: %r" % ([[c[0], c[1], bytes.fromhex(c[2])] for c in w.calls],))
         print("monitor now: %r" % (bad,))
         print("observed then: %s" % (data.get("observed"),))
         return 1 if bad else 0
